@@ -9,6 +9,8 @@ unknown nonces, cancellations and connection closes), starting from the empty
 connection.  "Promptly" is measured by the correspondence run, not proved.
 -/
 import DosModel.Proofs.DispatchTrace
+import DosModel.Proofs.ConnTableServe
+import DosModel.Model.ConnTableCfg
 import DosModel.Gen.P2PFlow
 
 namespace Dos.Props.C17
@@ -375,5 +377,277 @@ example : (run init (demo.take 31)).conn.ctxDone = true ∧ (run init (demo.take
     (run init (demo.take 31)).conn.pending = [(0, 0)] := ⟨rfl, rfl, rfl⟩
 example : (hrun true {} [.call 0 7 .silent, .call 1 8 .ok]).2 = [.failed 0, .handed 1 8] := rfl
 example : (hrun false {} [.call 0 7 .silent, .call 1 8 .ok]).2 = [] := rfl
+
+/-! ### 6. across connections: the server-level connection tables (`Model/ConnTable.lean`)
+
+A network of nodes running p2p/server.go (tables of inbound / outbound clients, dial, accept with the
+duplicate guard, `runClient`'s removal report, `DisConnectTo`, idle close, restart) and of harness endpoints;
+every theorem quantifies over EVERY finite history of `request / deliverReq / appReply / deliverReply / cut /
+reject / close / procRm / disconnect / expire / reset` events, from the empty network. -/
+
+/-- regenerated facts (go/ast over p2p/server.go, p2p/client.go): under which key each table is read, written
+and deleted, what the duplicate guard compares, which table `runClient` reports to for a client started by
+callHandler / receiveHandler, the refusal of a foreign announced id, per-connection keys and nonce base — the
+configuration the code has is the one the theorems below are about. -/
+theorem conn_table_code_shape : ConnTable.Cfg.code = ConnTable.Cfg.good := by decide
+
+/-- … and what the model takes for granted besides: removals and `DisConnectTo` delete under the reported id on
+callHandler's channel, Request and Reply pick the connection under the requested id. -/
+theorem conn_table_keys :
+    Gen.inRemoveKey = "string(id)" ∧ Gen.outRemoveKey = "string(id)" ∧ Gen.replyLookupKey = "string(req.id)" ∧
+    Gen.outLookupKey = "string(req.id)" ∧ Gen.disconnectChannel = "n.removeCallingC" ∧ Gen.disconnectSends = "id" := by
+  decide
+
+/-- the statement skeleton of the connection-table code (Listen's accept goroutine, receiveHandler, callHandler,
+runClient, handleCallReq, DisConnectTo, newClient, the key agreement of receiveID / sendID; logging left out) is
+the one the model was transcribed from: ANY edit of these functions shows here first. -/
+theorem conn_table_skeleton : Gen.connTableSkeleton = 
+  [
+    "accept | ctx, cancel := context.WithTimeout(n.ctx, 2*time.Second)",
+    "accept | defer cancel()",
+    "accept | c := newClient(n.id, fd, n.peersFeed, true)",
+    "accept | errc := c.handShake(ctx)",
+    "accept | for err = range errc",
+    "accept | if err != nil | err = c.close()",
+    "accept | if err != nil | return",
+    "accept | case <-n.ctx.Done() | return",
+    "accept | case n.addIncomingC <- c | (empty)",
+    "accept | return",
+    "receiveHandler | clients := make(map[string]*client)",
+    "receiveHandler | for | case <-n.ctx.Done() | for _, client := range clients",
+    "receiveHandler | for | case <-n.ctx.Done() | _, client := range clients | err := client.close()",
+    "receiveHandler | for | case <-n.ctx.Done() | return",
+    "receiveHandler | for | case c := <-n.addIncomingC | if clients[string(c.remoteID)] != nil | err := c.close()",
+    "receiveHandler | for | case c := <-n.addIncomingC | if clients[string(c.remoteID)] != nil | continue",
+    "receiveHandler | for | case c := <-n.addIncomingC | clients[string(c.remoteID)] = c",
+    "receiveHandler | for | case c := <-n.addIncomingC | n.incomingNum = len(clients)",
+    "receiveHandler | for | case c := <-n.addIncomingC | go n.runClient(c, true)",
+    "receiveHandler | for | case id := <-n.removeIncomingC | c := clients[string(id)]",
+    "receiveHandler | for | case id := <-n.removeIncomingC | if c := clients[string(id)]; c != nil | delete(clients, string(id))",
+    "receiveHandler | for | case id := <-n.removeIncomingC | n.incomingNum = len(clients)",
+    "receiveHandler | for | case req := <-n.replying | client := clients[string(req.id)]",
+    "receiveHandler | for | case req := <-n.replying | if client == nil | req.replyResult(nil, err)",
+    "receiveHandler | for | case req := <-n.replying | if client == nil | continue",
+    "receiveHandler | for | case req := <-n.replying | go client.send(req)",
+    "callHandler | addrToid := make(map[string][]byte)",
+    "callHandler | clients := make(map[string]*client)",
+    "callHandler | watchDog := time.NewTicker(5 * time.Second)",
+    "callHandler | for | case <-n.ctx.Done() | for _, client := range clients",
+    "callHandler | for | case <-n.ctx.Done() | _, client := range clients | err := client.close()",
+    "callHandler | for | case <-n.ctx.Done() | err = n.ctx.Err()",
+    "callHandler | for | case <-n.ctx.Done() | return",
+    "callHandler | for | case <-watchDog.C | if !n.members.IsAlive() | err = errors.New(\"p2p cluster status is not alive\")",
+    "callHandler | for | case <-watchDog.C | if !n.members.IsAlive() | return",
+    "callHandler | for | case id, ok := <-n.removeCallingC | if ok | c := clients[string(id)]",
+    "callHandler | for | case id, ok := <-n.removeCallingC | if ok | if c != nil | delete(addrToid, c.conn.RemoteAddr().String())",
+    "callHandler | for | case id, ok := <-n.removeCallingC | if ok | if c != nil | delete(clients, string(id))",
+    "callHandler | for | case id, ok := <-n.removeCallingC | if ok | n.callingNum = len(clients)",
+    "callHandler | for | case req, ok := <-n.calling | if ok | c = clients[string(req.id)]",
+    "callHandler | for | case req, ok := <-n.calling | if ok | if c = clients[string(req.id)]; c == nil | req.addr = n.members.Lookup(req.id)",
+    "callHandler | for | case req, ok := <-n.calling | if ok | if c = clients[string(req.id)]; c == nil | c = n.handleCallReq(req)",
+    "callHandler | for | case req, ok := <-n.calling | if ok | if c = clients[string(req.id)]; c == nil | if c = n.handleCallReq(req); c == nil | continue",
+    "callHandler | for | case req, ok := <-n.calling | if ok | if c = clients[string(req.id)]; c == nil | if string(c.remoteID) != string(req.id) | req.replyResult(nil, err)",
+    "callHandler | for | case req, ok := <-n.calling | if ok | if c = clients[string(req.id)]; c == nil | if string(c.remoteID) != string(req.id) | err := c.close()",
+    "callHandler | for | case req, ok := <-n.calling | if ok | if c = clients[string(req.id)]; c == nil | if string(c.remoteID) != string(req.id) | continue",
+    "callHandler | for | case req, ok := <-n.calling | if ok | if c = clients[string(req.id)]; c == nil | clients[string(req.id)] = c",
+    "callHandler | for | case req, ok := <-n.calling | if ok | if c = clients[string(req.id)]; c == nil | go n.runClient(c, false)",
+    "callHandler | for | case req, ok := <-n.calling | if ok | go c.send(req)",
+    "callHandler | return",
+    "runClient(c *client, inBound bool) | err := c.run()",
+    "runClient(c *client, inBound bool) | if inBound | delpeer = n.removeIncomingC",
+    "runClient(c *client, inBound bool) | else(inBound) | delpeer = n.removeCallingC",
+    "runClient(c *client, inBound bool) | case <-n.ctx.Done() | return",
+    "runClient(c *client, inBound bool) | case delpeer <- c.remoteID | (empty)",
+    "handleCallReq | fd, err = net.Dial(\"tcp\", req.addr)",
+    "handleCallReq | if fd, err = net.Dial(\"tcp\", req.addr); err != nil | req.replyResult(nil, err)",
+    "handleCallReq | if fd, err = net.Dial(\"tcp\", req.addr); err != nil | return",
+    "handleCallReq | c = newClient(n.id, fd, n.peersFeed, true)",
+    "handleCallReq | fd.SetDeadline(time.Now().Add(2 * time.Second))",
+    "handleCallReq | errc := c.handShake(req.ctx)",
+    "handleCallReq | for err = range errc",
+    "handleCallReq | if err != nil | req.replyResult(nil, err)",
+    "handleCallReq | if err != nil | err = c.close()",
+    "handleCallReq | if err != nil | c = nil",
+    "handleCallReq | if err != nil | return",
+    "handleCallReq | fd.SetDeadline(time.Time{})",
+    "handleCallReq | return",
+    "DisConnectTo | case <-n.ctx.Done() | return errors.Errorf(\"server DisConnectTo : %w\", n.ctx.Err())",
+    "DisConnectTo | case n.removeCallingC <- id | (empty)",
+    "DisConnectTo | return",
+    "newClient(localID []byte, conn net.Conn, peerFeed chan P2PMessage, inBound bool) | tcpConn, ok := conn.(*net.TCPConn)",
+    "newClient(localID []byte, conn net.Conn, peerFeed chan P2PMessage, inBound bool) | tcpConn.SetKeepAlive(true)",
+    "newClient(localID []byte, conn net.Conn, peerFeed chan P2PMessage, inBound bool) | tcpConn.SetKeepAlivePeriod(time.Second * 1)",
+    "newClient(localID []byte, conn net.Conn, peerFeed chan P2PMessage, inBound bool) | c = &client{localID: localID, conn: tcpConn, inBound: inBound, errc: make(chan error)}",
+    "newClient(localID []byte, conn net.Conn, peerFeed chan P2PMessage, inBound bool) | c.ctx, c.cancel = context.WithCancel(context.Background())",
+    "newClient(localID []byte, conn net.Conn, peerFeed chan P2PMessage, inBound bool) | c.peerSend = make(chan p2pRequest, 21)",
+    "newClient(localID []byte, conn net.Conn, peerFeed chan P2PMessage, inBound bool) | c.peerFeed = peerFeed",
+    "newClient(localID []byte, conn net.Conn, peerFeed chan P2PMessage, inBound bool) | binary.Read(rand.Reader, binary.BigEndian, &c.nonceBase)",
+    "newClient(localID []byte, conn net.Conn, peerFeed chan P2PMessage, inBound bool) | c.suite = suites.MustFind(\"bn256\")",
+    "newClient(localID []byte, conn net.Conn, peerFeed chan P2PMessage, inBound bool) | c.localSecKey = c.suite.Scalar().Pick(c.suite.RandomStream())",
+    "newClient(localID []byte, conn net.Conn, peerFeed chan P2PMessage, inBound bool) | c.localPubKey = c.suite.Point().Mul(c.localSecKey, nil)",
+    "newClient(localID []byte, conn net.Conn, peerFeed chan P2PMessage, inBound bool) | return",
+    "receiveID | go func | c.remoteID = id.GetId()",
+    "receiveID | go func | if string(c.remoteID) == string(c.localID) | err = errors.Errorf(\"remoteID %b != localID %b: %w\", c.remoteID, c.localID, ErrDuplicateID)",
+    "receiveID | go func | if string(c.remoteID) == string(c.localID) | utils.ReportError(ctx, errc, errors.Errorf(\"client : %w\", err))",
+    "receiveID | go func | if c.remoteID == nil | err = errors.Errorf(\"remoteID is nil: %w\", ErrNoRemoteID)",
+    "receiveID | go func | c.remotePubKey = pub",
+    "receiveID | go func | dhKey := c.suite.Point().Mul(c.localSecKey, c.remotePubKey)",
+    "receiveID | go func | dhBytes, err = dhKey.MarshalBinary()",
+    "receiveID | go func | if dhBytes, err = dhKey.MarshalBinary(); err != nil | utils.ReportError(ctx, errc, errors.Errorf(\"MarshalBinary: %w\", err))",
+    "receiveID | go func | if dhBytes, err = dhKey.MarshalBinary(); err != nil | return",
+    "receiveID | go func | c.dhKey = dhBytes[0:32]",
+    "receiveID | go func | c.dhNonce = dhBytes[32:44]",
+    "sendID | go func | pubKeyBytes, err = c.localPubKey.MarshalBinary()",
+    "sendID | go func | if pubKeyBytes, err = c.localPubKey.MarshalBinary(); err != nil | utils.ReportError(ctx, errc, errors.Errorf(\"MarshalBinary: %w\", err))",
+    "sendID | go func | if pubKeyBytes, err = c.localPubKey.MarshalBinary(); err != nil | return",
+    "sendID | go func | pID := &ID{PublicKey: pubKeyBytes, Id: c.localID}",
+    "sendID | go func | bytes, err = encodeProto(pID, c.localID, nil, 0, false)",
+    "sendID | go func | if bytes, err = encodeProto(pID, c.localID, nil, 0, false); err != nil | utils.ReportError(ctx, errc, errors.Errorf(\"encodeProto: %w\", err))"] := by rfl
+
+open Dos.ConnTable in
+/-- **6a. at most once, across every connection history**: once a call has returned — a reply or an error —
+no later event (late or duplicated replies on any connection, reconnects, restarts) changes what it returned. -/
+theorem hist_returns_at_most_once (cfg : Cfg) (ideal : Nat → Bool) (evs more : List ConnTable.Ev) (i : Nat)
+    (hi : i < (ConnTable.run cfg (ConnTable.init ideal) evs).nreq)
+    (h : ((ConnTable.run cfg (ConnTable.init ideal) evs).reqs i).out ≠ .waiting) :
+    ((ConnTable.run cfg (ConnTable.init ideal) (evs ++ more)).reqs i).out =
+      ((ConnTable.run cfg (ConnTable.init ideal) evs).reqs i).out := by
+  have : ConnTable.run cfg (ConnTable.init ideal) (evs ++ more) =
+      ConnTable.run cfg (ConnTable.run cfg (ConnTable.init ideal) evs) more := by
+    simp [ConnTable.run, List.foldl_append]
+  rw [this]; exact run_out_stable cfg _ more i hi h
+
+open Dos.ConnTable in
+/-- **6b. never another request's reply, whatever happens to the connections**: in every history — requests in
+flight when a connection is cut, DisConnectTo and a second connection, replies arriving late on whichever
+connection the replying node picks, restarts of either side — a reply a call returns names that very call.
+(Needs the per-connection nonce base, `conn_table_code_shape`; the routing of the replying side plays no role.) -/
+theorem hist_reply_is_own (ideal : Nat → Bool) (evs : List ConnTable.Ev) (i m : Nat)
+    (h : ((ConnTable.run Cfg.code (ConnTable.init ideal) evs).reqs i).out = .got m) : m = i := by
+  rw [conn_table_code_shape] at h
+  exact run_own Cfg.good rfl (Inv.init ideal) (by intro j m h; simp [ConnTable.init] at h) evs i m h
+
+open Dos.ConnTable in
+/-- **6c. only on the connection it was sent on**: the one event that gives a call a reply is the arrival of the
+oldest reply frame in flight on the connection whose dispatch registered the call, carrying the call's nonce. -/
+theorem hist_reply_on_own_connection (ideal : Nat → Bool) (evs : List ConnTable.Ev) (e : ConnTable.Ev) (i m : Nat)
+    (hw : ((ConnTable.run Cfg.code (ConnTable.init ideal) evs).reqs i).out = .waiting)
+    (h : ((ConnTable.step Cfg.code (ConnTable.run Cfg.code (ConnTable.init ideal) evs) e).reqs i).out = .got m) :
+    ∃ c ν rest, e = .deliverReply c ∧ ((ConnTable.run Cfg.code (ConnTable.init ideal) evs).reqs i).conn = some c ∧
+      ((ConnTable.run Cfg.code (ConnTable.init ideal) evs).reqs i).nonce = some ν ∧
+      ((ConnTable.run Cfg.code (ConnTable.init ideal) evs).conns c).repQ = (ν, m) :: rest := by
+  rw [conn_table_code_shape] at hw h ⊢
+  have hI := run_inv Cfg.good rfl (Inv.init ideal) evs
+  rcases step_got Cfg.good _ e i m h with h' | ⟨c, ν, rest, he, _, hq, _, hl, _⟩
+  · rw [hw] at h'; simp at h'
+  · exact ⟨c, ν, rest, he, hI.pconn c ν i (lookupN_mem hl), hI.pend c ν i (lookupN_mem hl), hq⟩
+
+open Dos.ConnTable in
+/-- **6d. no stale table entry**: in every history, an entry of callHandler's (receiveHandler's) table whose
+connection has ended — `client.run` returned there: peer hang-up, cut, rejected frame, idle close — has its
+removal reported and on the way; and an entry points to a connection this node dialled to (accepted from)
+exactly that peer. -/
+theorem hist_no_stale_entry (ideal : Nat → Bool) (evs : List ConnTable.Ev) (n p c : Nat) :
+    let s := ConnTable.run Cfg.code (ConnTable.init ideal) evs
+    ((s.nodes n).out p = some c → (s.conns c).d = n ∧ (s.conns c).a = p ∧
+        ((s.conns c).retD = true → (true, p) ∈ (s.nodes n).rm)) ∧
+    ((s.nodes n).inb p = some c → (s.conns c).a = n ∧ (s.conns c).d = p ∧
+        ((s.conns c).retA = true → (false, p) ∈ (s.nodes n).rm)) := by
+  rw [conn_table_code_shape]
+  have hT := run_tabInv (TabInv.init ideal) evs
+  intro s
+  exact ⟨fun h => ⟨(hT.o1 n p c h).2.1, (hT.o1 n p c h).2.2.1, hT.o2 n p c h⟩,
+         fun h => ⟨(hT.i1 n p c h).2.1, (hT.i1 n p c h).2.2.1, hT.i2 n p c h⟩⟩
+
+open Dos.ConnTable in
+/-- … and taking a reported removal deletes the entry (so the next request dials again) -/
+theorem removal_clears_entry (s : ConnTable.Net) (n k p : Nat) (isCall : Bool)
+    (h : (s.nodes n).rm[k]? = some (isCall, p)) :
+    if isCall then ((ConnTable.step Cfg.code s (.procRm n k)).nodes n).out p = none
+    else ((ConnTable.step Cfg.code s (.procRm n k)).nodes n).inb p = none := by
+  simp only [ConnTable.step, h]
+  cases isCall <;> simp [setTab]
+
+open Dos.ConnTable in
+/-- **6e. after a connection has ended, a later request to that peer is served**: after ANY history, if neither
+side has an entry for the other any more (by 6d that is where every ended connection gets once its reported
+removals are taken), a request of `a` to `b` (reachable: the dial meets `b`) opens a new connection, reaches
+`b`'s application, and the reply `b` addresses to it comes back to exactly that call. -/
+theorem hist_served_after_end (ideal : Nat → Bool) (evs : List ConnTable.Ev) (a b : Nat) :
+    let s := ConnTable.run Cfg.code (ConnTable.init ideal) evs
+    (s.nodes a).out b = none → (s.ideal b = true ∨ (s.nodes b).inb a = none) →
+    ((ConnTable.run Cfg.code s (serveEvs s a b)).reqs s.nreq).out = .got s.nreq := by
+  rw [conn_table_code_shape]
+  intro s ho hi
+  exact served_on_fresh_connection s a b ho hi
+
+open Dos.ConnTable in
+/-- **6f. other peers are unaffected**: whatever happens with peer `q` — its connections cut, closed, rejected
+frames, its removals taken, DisConnectTo, requests and replies in either direction, its restart — node `n`'s table
+entries for another peer `p` stay as they are; only a request between `n` and `p`, `DisConnectTo(p)`, a removal
+reported for `p` (by a connection with `p`: second part) or `n`'s own restart touch them. -/
+theorem hist_other_peers_unaffected (ideal : Nat → Bool) (evs : List ConnTable.Ev) (e : ConnTable.Ev) (n p : Nat) :
+    let s := ConnTable.run Cfg.code (ConnTable.init ideal) evs
+    (touches s e n p = false →
+      ((ConnTable.step Cfg.code s e).nodes n).out p = (s.nodes n).out p ∧
+      ((ConnTable.step Cfg.code s e).nodes n).inb p = (s.nodes n).inb p) ∧
+    (∀ t, (t, p) ∈ (s.nodes n).rm → ∃ c, c < s.nconn ∧
+      (((s.conns c).d = n ∧ (s.conns c).ann = p) ∨ ((s.conns c).a = n ∧ (s.conns c).d = p))) := by
+  rw [conn_table_code_shape]
+  intro s
+  refine ⟨tables_untouched s e n p, ?_⟩
+  intro t h
+  obtain ⟨c, hc, hx⟩ := (run_tabInv (TabInv.init ideal) evs).r1 n t p h
+  exact ⟨c, hc, hx.elim (fun h => Or.inl h.2) (fun h => Or.inr h.2)⟩
+
+/-- **the defect that was there (2071f1f)**: with every connection's nonces counting from 0, 6b is false — request
+0 goes out on connection 0, the connection is cut, request 1 goes out on connection 1, the peer's application
+answers request 0, the reply is written to connection 1 and handed to request 1. -/
+theorem late_reply_crossed_reconnect_before_fix :
+    ((ConnTable.run { ConnTable.Cfg.good with nonceBase := false } (ConnTable.init)
+      [.request 0 1 (some 1), .deliverReq 0, .cut 0, .procRm 0 0, .procRm 1 0,
+       .request 0 1 (some 1), .deliverReq 1, .appReply 1 0, .deliverReply 1]).reqs 1).out = .got 0 := by decide
+
+/-- what the duplicate guard is for: were it to compare the wrong id (never firing), a second connection would
+replace the first in the replying node's table while both are up, and the reply to a request of the first would
+be written to the second — where nobody waits for it (the request runs into its deadline although its connection
+is healthy and the peer answered). With the guard the reply goes back on the connection the request came in on. -/
+theorem guard_keeps_reply_on_its_connection :
+    let h := [ConnTable.Ev.request 0 1 (some 1), .deliverReq 0, .disconnect 0 1, .request 0 1 (some 1), .deliverReq 1,
+              .appReply 1 0, .deliverReply 0, .deliverReply 1]
+    ((ConnTable.run ConnTable.Cfg.good ConnTable.init h).reqs 0).out = .got 0 ∧
+    ((ConnTable.run { ConnTable.Cfg.good with inGuard := .localId } ConnTable.init h).reqs 0).out = .waiting := by
+  decide
+
+/-- what reporting to the right table is for: were a client started by callHandler reported to receiveHandler,
+the dead entry would stay and a later request would be handed to the dead connection — 6d and 6e fail. -/
+theorem wrong_table_leaves_stale_entry :
+    let h := [ConnTable.Ev.request 0 1 (some 1), .deliverReq 0, .appReply 1 0, .deliverReply 0, .cut 0,
+              .procRm 0 0, .procRm 1 0, .request 0 1 (some 1), .deliverReq 0, .deliverReq 1]
+    ((ConnTable.run ConnTable.Cfg.good ConnTable.init h).nodes 1).held.length = 1 ∧
+    ((ConnTable.run { ConnTable.Cfg.good with outEndsOut := false } ConnTable.init h).nodes 1).held.length = 0 ∧
+    ((ConnTable.run { ConnTable.Cfg.good with outEndsOut := false } ConnTable.init h).nodes 0).out 1 = some 0 := by
+  decide
+
+/-! non-vacuity of section 6: a concrete history with two nodes (0, 1) and a harness endpoint (2) -/
+def histDemo : List ConnTable.Ev :=
+  [.request 0 1 (some 1), .deliverReq 0, .request 0 2 (some 2), .deliverReq 1,
+   .cut 0, .procRm 0 0, .procRm 1 0,
+   .request 0 1 (some 1), .deliverReq 2, .appReply 1 0, .appReply 1 0, .deliverReply 2, .deliverReply 2,
+   .appReply 2 0, .deliverReply 1, .expire 0]
+def histIdeal : Nat → Bool := fun n => n == 2
+
+example : ((ConnTable.run ConnTable.Cfg.code (ConnTable.init histIdeal) histDemo).reqs 0).out = .err := by decide
+example : ((ConnTable.run ConnTable.Cfg.code (ConnTable.init histIdeal) histDemo).reqs 1).out = .got 1 := by decide
+example : ((ConnTable.run ConnTable.Cfg.code (ConnTable.init histIdeal) histDemo).reqs 2).out = .got 2 := by decide
+example : ((ConnTable.run ConnTable.Cfg.code (ConnTable.init histIdeal) histDemo).nodes 0).out 1 = some 2 := by decide
+example : (ConnTable.run ConnTable.Cfg.code (ConnTable.init histIdeal) (histDemo.take 5)).nreq = 2 ∧
+    ((ConnTable.run ConnTable.Cfg.code (ConnTable.init histIdeal) (histDemo.take 5)).nodes 0).out 1 = some 0 ∧
+    ((ConnTable.run ConnTable.Cfg.code (ConnTable.init histIdeal) (histDemo.take 5)).conns 0).retD = true ∧
+    ((ConnTable.run ConnTable.Cfg.code (ConnTable.init histIdeal) (histDemo.take 5)).nodes 0).rm = [(true, 1)] := by decide
+example : ((ConnTable.run ConnTable.Cfg.code (ConnTable.init histIdeal) (histDemo.take 7)).nodes 0).out 1 = none ∧
+    ((ConnTable.run ConnTable.Cfg.code (ConnTable.init histIdeal) (histDemo.take 7)).nodes 1).inb 0 = none := by decide
+example : ConnTable.touches (ConnTable.run ConnTable.Cfg.code (ConnTable.init histIdeal) (histDemo.take 4)) (.cut 0) 0 2 = false := by
+  decide
 
 end Dos.Props.C17
